@@ -20,7 +20,11 @@ BUDGET = {'quick': 150, 'thorough': 1200}
 CHUNK = {'quick': 40, 'thorough': 200}
 REQUIRED = ['sim_nodes_checked', 'infectors_checked', 'array_rows_checked', 'builder_arcs_checked', 'markov_builder_draws_checked',
             'get_infected_checked', 'tie_cases', 'one_shot_recovered_iterables']
-VALUE_SETS = {'small_int': [0, 1, 2], 'ties_inf': [0.5, 1, 1, 2, float('inf')], 'zeros': [0, 0, 1], 'cont': None, 'dyadic': [0.25, 0.5, 0.75, 1.5]}
+VALUE_SETS = {'small_int': [0, 1, 2], 'ties_inf': [0.5, 1, 1, 2, float('inf')], 'zeros': [0, 0, 1], 'cont': None, 'dyadic': [0.25, 0.5, 0.75, 1.5],
+              # values one unit in the last place apart: 0.1+0.2 > 0.3, 0.2+0.4 > 0.6, 0.7+0.1 < 0.8 - "delay <= duration" is an exact comparison
+              'ulp': [0.3, 0.1 + 0.2, 0.6, 0.2 + 0.4, 0.8, 0.7 + 0.1, 1.0],
+              # whole seconds on an absolute clock (start time of the order of 1e9): nothing is 'close enough' to a tie
+              'epoch': [0, 1, 2, 3, 5]}
 INF = float('inf')
 
 
@@ -54,6 +58,9 @@ def gen_cases(tier, seed):
         tmax = r.choice(['inf', 'inf', tmin + 1, tmin + 2, tmin + 3.5, tmin + 0.5])
         if tmin < 0 and r.random() < 0.3:
             tmax = r.choice([0, 0.0])         # horizon exactly zero (falsy) after a negative start
+        if vs == 'epoch':
+            tmin = 1700000000
+            tmax = r.choice(['inf', 'inf', tmin + 4, tmin + 7])
         out.append({'kind': kinds[k % len(kinds)], 'graph': desc, 'vs': vs, 'dur': ['inf' if x == INF else x for x in dur],
                     'delay': {kk: ('inf' if x == INF else x) for kk, x in dl.items()}, 'I0': I0, 'R0': R0, 'tmin': tmin, 'tmax': tmax,
                     'form': r.choice(['sep', 'joint']), 'full': r.random() < 0.6, 'seed': cs,
